@@ -20,6 +20,10 @@ PROGRAMS = {
     "longname": ["        NAM averylongname\n", "        ORG $7000\n", "        NOP\n", "        RTS\n"],
     "namlate": ["        ORG $2000\n", "BEGIN   LDA #$41\n", "        NAM later\n", "        STA $0400\n", "        RTS\n"],
     "namlast": ["        ORG $2100\n", "        CLRA\n", "        RTS\n", "        NAM tail\n"],
+    # larger than one cassette block (255 bytes) / one disk sector; mixed content so that a shortened or shifted copy shows
+    "big600": ["        NAM big\n", "        ORG $4000\n", "ENTRY   LDA #$41\n"] + ["        FDB $%04X,$%04X,$%04X,$%04X\n" % (4 * k + 0x1001, 4 * k + 0x2002, 4 * k + 0x3003, 4 * k + 0x4004) for k in range(75)] +
+              ["        RTS\n", "        END ENTRY\n"],
+    "exact255": ["        NAM edge\n", "        ORG $5000\n"] + ["        FCB %s\n" % ",".join(str((17 * k + j) % 256) for j in range(15)) for k in range(17)],
     "bad": ["        ORG $0E00\n", "        LDA #$41\n", "        FOO 12\n"],
     "undefined": ["        ORG $0E00\n", "        JMP NOWHERE\n"],
 }
@@ -103,6 +107,12 @@ class CliAssembler:
         out.append({"id": "asm/sequence/cas-same-name", "k": "seqsame", "t": "cas"})
         out.append({"id": "asm/sequence/dsk-same-name", "k": "seqsame", "t": "dsk"})
         out.append({"id": "asm/all-three", "k": "all3"})
+        # every combination of two or three output switches, on programs below / at / above one cassette block
+        for prog in ("named", "exact255", "big600"):
+            for combo in (("bin", "cas"), ("bin", "dsk"), ("cas", "dsk"), ("bin", "cas", "dsk")):
+                if prog == "named" and len(combo) == 3:
+                    continue
+                out.append({"id": "asm/combined/%s/%s" % ("+".join(combo), prog), "k": "all3", "combo": combo, "prog": prog})
         out.append({"id": "asm/sequence/cas-append-twice", "k": "seq", "t": "cas"})
         out.append({"id": "asm/sequence/dsk-append-twice", "k": "seq", "t": "dsk"})
         return out
@@ -287,20 +297,24 @@ class CliAssembler:
             fs[target] = list(after)
 
     def k_all3(self, env, cell, native):
-        lines = PROGRAMS["named"]
-        r = run_cli(env, "assembler", {"filename": "prog.asm", "to_bin": "out.bin", "to_cas": "out.cas", "to_dsk": "out.dsk"},
-                    {"prog.asm": list(lines)})
-        sig = lambda w: (lambda: "asm/all-three:%s" % w) if native else None
+        lines = PROGRAMS[cell.get("prog", "named")]
+        combo = cell.get("combo", ("bin", "cas", "dsk"))
+        args = {"filename": "prog.asm"}
+        for t in combo:
+            args["to_" + t] = self._target(t)
+        r = run_cli(env, "assembler", args, {"prog.asm": list(lines)})
+        sig = lambda w: (lambda: "asm/combined/%s/%s:%s" % ("+".join(combo), cell.get("prog", "named"), w)) if native else None
         if r.escape:
             env.fail("C13:cli-no-traceback", ("C13",), sig("escape:%s" % r.escape))
             return
         run = self._assembled(env, lines)
-        for t in ("bin", "cas", "dsk"):
+        for t in combo:
             after = r.fs.get(self._target(t))
             if after is None:
                 env.fail("C11:saved-image", ("C11",), sig("no-%s-file" % t))
                 continue
-            self._check_image(env, t, after, [], self._expect_file(run, "named"), "C11:saved-image", ("C11",), sig)
+            self._check_image(env, t, after, [], self._expect_file(run, "named"), "C11:saved-image", ("C11",),
+                              lambda w, t=t: sig("%s:%s" % (t, w)))
 
     def k_seq(self, env, cell, native):
         t = cell["t"]
@@ -338,6 +352,14 @@ FILESETS = {
               ("C3", "BIN", 2, 0, 0x3000, 0x3003, [3])],
     "prefix": [("GAME", "BIN", 2, 0, 0x0E00, 0x0E10, [7] * 39), ("GAME2", "BIN", 2, 0, 0x3000, 0x3008, [1, 2, 3, 4]),
                ("LOADER", "BIN", 2, 0, 0x0600, 0x0601, [9, 8])],
+    # BASIC and ASCII files; ASCII files have no length in a preamble: their length is rebuilt from the FAT (sectors in the last
+    # granule + bytes in the last sector), so the sizes sit on both sides of the sector / granule boundaries
+    "kinds": [("LOADER", "BIN", 2, 0, 0x0E00, 0x0E10, [(3 * i) % 256 for i in range(300)]),
+              ("NOTES", "TXT", 1, 0xFF, 0, 0, [65 + i % 26 for i in range(4404)]),
+              ("GAME", "BAS", 0, 0, 0, 0, [(7 * i + 1) % 256 for i in range(4404)]),
+              ("README", "TXT", 1, 0xFF, 0, 0, [97 + i % 26 for i in range(2100)]),
+              ("SECTOR", "TXT", 1, 0xFF, 0, 0, [48 + i % 10 for i in range(256)]),
+              ("SHORT", "TXT", 1, 0xFF, 0, 0, [32 + i % 90 for i in range(1500)])],
     "with-empty": [("FIRST", "BIN", 2, 0, 0x1000, 0x1000, [1, 2]), ("EMPTY", "BIN", 2, 0, 0x2000, 0x2000, []),
                    ("LAST", "BIN", 2, 0, 0x3000, 0x3000, [5])],
 }
@@ -408,6 +430,11 @@ class CliFileUtil:
             env.fail(clause, props, sig("file-count=%d,want=%d" % (len(got), len(want))))
             return
         for j, (g, w) in enumerate(zip(got, want)):
+            # only machine-language files carry addresses on a disk (preamble / postamble); for the other kinds "no address"
+            # and 0 are the same thing
+            if w[1] != 2:
+                g = (g[0], g[1], g[2] or 0, g[3] or 0, g[4])
+                w = (w[0], w[1], w[2] or 0, w[3] or 0, w[4])
             ok = g[0].upper()[:8] == w[0].upper()[:8] and g[1:] == w[1:]
             env.ensure(clause, ok, props, sig("file@%d:name=%s,type=%s,load=%s,exec=%s,data=%s" % (
                 j, g[0].upper()[:8] == w[0].upper()[:8], g[1] == w[1], g[2] == w[2], g[3] == w[3], g[4] == w[4])))
